@@ -69,3 +69,8 @@ pub fn short_table(ids: &[u8]) -> bool {
     true
 }
 pub static PLAIN_TABLE: [u8; 4] = [1, 2, 3, 4];
+
+// E7 type reflection: a value that names / measures a type
+pub fn reflects<T>() -> (&'static str, usize) {
+    (core::any::type_name::<T>(), core::mem::size_of::<T>())
+}
